@@ -58,6 +58,7 @@ def main(argv=None) -> int:
     c.add_argument("property")
     c.add_argument("--tier", default=os.environ.get("VERIF_TIER", "quick"), choices=["quick", "thorough"])
     c.add_argument("--root", default=None)
+    c.add_argument("--no-write", action="store_true")
     a = sub.add_parser("all")
     a.add_argument("--tier", default=os.environ.get("VERIF_TIER", "quick"), choices=["quick", "thorough"])
     a.add_argument("--root", default=None)
@@ -76,7 +77,7 @@ def main(argv=None) -> int:
 
         return variants.main_selftest([p.upper() for p in args.properties] or None)
     if args.cmd == "check":
-        return run_check(args.property.upper(), args.tier, seed, root=args.root)
+        return run_check(args.property.upper(), args.tier, seed, root=args.root, write=not args.no_write)
     if args.cmd == "all":
         worst = 0
         for pid in ALL:
